@@ -173,7 +173,9 @@ def h05b_shards(tier):
                     out.append({"c": c, "t": t, "name": name, "field": field, "kind": kind, "slen": 2 if tier == "quick" else 3, "nlab": nlab,
                                 "mode": int_mode(name, field, kind[1], tier) if kind[0] == "int" else "all",
                                 # (a 5-digit render / parse identity costs z3 up to ~30 s per query on a loaded machine)
-                                "_timeout": 600 if tier == "quick" else 2400, "_path_timeout": 240 if kind[0] == "int" else 60})
+                                # (budgets also order the jobs: the runner starts the largest budgets first)
+                                "_timeout": (900 if kind[0] == "name" and nlab == 2 else 800 if kind[0] == "int" and kind[1] > 65535 else 600) if tier == "quick" else 2400,
+                                "_path_timeout": 240 if kind[0] == "int" else 60})
     return out
 
 
